@@ -12,8 +12,8 @@ over a disturbed server→client direction.
   when a read times out, and a time-out inside the loop raises out of it, so the loop is a scan of
   the queue (`scan`, structural recursion) for the first frame with `seqno = _ackseq + 1`; the code
   after the loop (`abort(0x05040000)`) is unreachable under that reading of time and not modelled.
-* `read()` as coded, including the second `_retransmit()` it performs when the first one (entered
-  through a time-out) succeeded, because `_ackseq` has then already been advanced.
+* `read()` as coded (repaired): a segment that is missing (time-out) or out of sequence leads to
+  exactly one `_retransmit()`, whose result is taken without a second sequence check.
 * `readAll` = `RawIOBase.readall()` (what `fp.read()` does for the raw and for the buffered
   stream): repeat `read()` until it returns no bytes; explicit fuel, `Res.fuel` distinct.
 * `close()` always runs when the `with` block is left.
@@ -145,10 +145,11 @@ def init (E : Env) (s : Sys) (idx sub : Nat) (crcReq : Bool) : Sys × Bool :=
          [REQUEST_BLOCK_UPLOAD ||| START_BLOCK_UPLOAD, 0, 0, 0, 0, 0, 0, 0], true)
   | (s1, _) => (s1, false)
 
-/-- `_ack_block` -/
+/-- `_ack_block` (repaired code): after every acknowledge the server numbers the next sub-block
+    from 1 again, so the sequence counter is reset unconditionally -/
 def ackBlock (E : Env) (s : Sys) : Sys :=
   let s1 := sendReq E s [REQUEST_BLOCK_UPLOAD ||| BLOCK_TRANSFER_RESPONSE, s.cl.ackseq, UPLOAD_BLKSIZE, 0, 0, 0, 0, 0]
-  if s1.cl.ackseq = UPLOAD_BLKSIZE then { s1 with cl := { s1.cl with ackseq := 0 } } else s1
+  { s1 with cl := { s1.cl with ackseq := 0 } }
 
 inductive ScanRes
   | found (r : Bytes) (rest : List Bytes)
@@ -173,7 +174,8 @@ def retransmit (E : Env) (s : Sys) : Sys × Option Bytes :=
   | .timeout => (fail (abort E (setError { s1 with queue := [] }) 0x05040000) .comm, none)
   | .aborted code rest => (fail { s1 with queue := rest } (.aborted code), none)
 
-/-- the sequence check of `read` on a response in hand -/
+/-- the sequence check of `read` on a response in hand (`_ackseq += 1` when it fits, which is the
+    response's own number) -/
 def seqCheck (E : Env) (s : Sys) (r : Bytes) : Sys × Option Bytes :=
   if r.getD 0 0 &&& 0x7F = s.cl.ackseq + 1 then
     ({ s with cl := { s.cl with ackseq := r.getD 0 0 &&& 0x7F } }, some r)
@@ -221,7 +223,7 @@ def andThen (E : Env) (x : Sys × Option Bytes) (f : Env → Sys → Bytes → S
 def readStep (E : Env) (s : Sys) : Sys × Option Bytes :=
   match readResponse s with
   | (s1, .aborted code) => (fail s1 (.aborted code), none)
-  | (s1, .timeout) => andThen E (andThen E (retransmit E s1) seqCheck) afterSeq
+  | (s1, .timeout) => andThen E (retransmit E s1) afterSeq
   | (s1, .resp r) => andThen E (seqCheck E s1 r) afterSeq
 
 /-- `readall()`: `read()` until it returns no bytes -/
